@@ -4,7 +4,9 @@ import (
 	"bytes"
 	"context"
 	"encoding/base64"
+	"errors"
 	"fmt"
+	"io"
 	"net/http"
 	"reflect"
 	"strings"
@@ -153,6 +155,26 @@ func runC13Case(rep *Report, c *c13Case, ent []byte, lines, expect, what *[]stri
 	if c.ExtraHdr != "" && (seen.Header.Get("X-Extra") != c.ExtraHdr || seen.Header.Get("Cookie") != "a=b") {
 		bad("request-caller-headers", fmt.Sprint(seen.Header))
 	}
+	// the request as the Lean model of handshakeRequest builds it
+	{
+		cop := "none"
+		if c.Mode == 1 {
+			cop = "00"
+		} else if c.Mode == 2 {
+			cop = "11"
+		}
+		var parts []string
+		for _, k := range []string{"Connection", "Cookie", "Sec-Websocket-Extensions", "Sec-Websocket-Key", "Sec-Websocket-Protocol", "Sec-Websocket-Version", "Upgrade", "X-Extra"} {
+			var vs []string
+			for _, v := range seen.Header[k] {
+				vs = append(vs, hs(v))
+			}
+			parts = append(parts, k+"="+strings.Join(vs, ","))
+		}
+		*lines = append(*lines, fmt.Sprintf("dial-req %s %s %s %s", encHdr(callerHdr), hsList(c.Requested), cop, hs(sentKey)))
+		*expect = append(*expect, "ok "+strings.Join(parts, ";"))
+		*what = append(*what, "request headers "+desc)
+	}
 	// response decision
 	if want := c.want(); (err == nil) != want {
 		shape := "dial-accepts-invalid-response"
@@ -185,10 +207,134 @@ func runC13Case(rep *Report, c *c13Case, ent []byte, lines, expect, what *[]stri
 	}
 }
 
+// c13DialPaths: the parts of Dial around the response check — URL schemes, transport failures, a 101
+// response whose body is not a connection, the client's Timeout, redirects. In every failing case Dial
+// must return an error and no connection; what it sends must always be a well-formed upgrade request.
+func c13DialPaths(rep *Report) {
+	bad := func(shape, what string, replay interface{}) {
+		rep.violate(Violation{Kind: "property", Shape: shape, What: what, Replay: replay})
+	}
+	upgradeOK := func(req *http.Request) bool {
+		return req.Method == "GET" && strings.EqualFold(req.Header.Get("Connection"), "upgrade") && strings.EqualFold(req.Header.Get("Upgrade"), "websocket") &&
+			req.Header.Get("Sec-WebSocket-Version") == "13" && req.Header.Get("Sec-WebSocket-Key") != ""
+	}
+	ok101 := func(req *http.Request, body io.ReadCloser) *http.Response {
+		h := http.Header{}
+		h.Set("Connection", "Upgrade")
+		h.Set("Upgrade", "websocket")
+		h.Set("Sec-WebSocket-Accept", wantAccept(req.Header.Get("Sec-WebSocket-Key")))
+		return &http.Response{StatusCode: 101, Header: h, Body: body, Request: req}
+	}
+	// 1. schemes
+	for _, tc := range []struct {
+		url, want string // want = scheme of the request sent, "" = no request may be sent / Dial must fail
+	}{{"ws://example.com/p?q=1", "http"}, {"wss://example.com/p", "https"}, {"http://example.com/p", "http"}, {"https://example.com/p", "https"},
+		{"ftp://example.com/p", ""}, {"example.com/p", ""}, {"ws://[::1/p", ""}, {"://x", ""}, {"", ""}} {
+		var seen *http.Request
+		rt := rtFunc(func(req *http.Request) (*http.Response, error) {
+			seen = req
+			return &http.Response{StatusCode: 400, Header: http.Header{}, Body: http.NoBody, Request: req}, nil
+		})
+		ctx, cancel := context.WithTimeout(context.Background(), 2*time.Second)
+		conn, _, err := websocket.Dial(ctx, tc.url, &websocket.DialOptions{HTTPClient: &http.Client{Transport: rt}})
+		cancel()
+		rep.eval("dial-scheme/" + tc.url)
+		if conn != nil {
+			conn.CloseNow()
+		}
+		if err == nil || conn != nil {
+			bad("dial-accepts-invalid-response", fmt.Sprintf("Dial(%q) against a 400 response: err=%v conn=%v", tc.url, err, conn != nil), tc.url)
+		}
+		if tc.want == "" && seen != nil {
+			bad("request-for-unusable-url", fmt.Sprintf("Dial(%q) sent a request to %s", tc.url, seen.URL), tc.url)
+		}
+		if tc.want != "" && (seen == nil || seen.URL.Scheme != tc.want || !upgradeOK(seen)) {
+			bad("request-url", fmt.Sprintf("Dial(%q): request %v (want scheme %s and a well-formed upgrade request)", tc.url, seen, tc.want), tc.url)
+		}
+	}
+	// 2. the transport fails
+	{
+		rt := rtFunc(func(req *http.Request) (*http.Response, error) { return nil, errors.New("connection refused") })
+		ctx, cancel := context.WithTimeout(context.Background(), 2*time.Second)
+		conn, _, err := websocket.Dial(ctx, "ws://example.com/", &websocket.DialOptions{HTTPClient: &http.Client{Transport: rt}})
+		cancel()
+		rep.eval("dial-transport-error")
+		if err == nil || conn != nil {
+			bad("dial-accepts-invalid-response", fmt.Sprintf("transport error: Dial err=%v conn=%v", err, conn != nil), "transport-error")
+		}
+	}
+	// 3. a correct 101 whose body cannot be written to (no connection behind it)
+	{
+		rt := rtFunc(func(req *http.Request) (*http.Response, error) {
+			return ok101(req, io.NopCloser(strings.NewReader(""))), nil
+		})
+		ctx, cancel := context.WithTimeout(context.Background(), 2*time.Second)
+		conn, _, err := websocket.Dial(ctx, "ws://example.com/", &websocket.DialOptions{HTTPClient: &http.Client{Transport: rt}})
+		cancel()
+		rep.eval("dial-body-not-a-connection")
+		if conn != nil {
+			conn.CloseNow()
+		}
+		if err == nil || conn != nil {
+			bad("dial-accepts-invalid-response", fmt.Sprintf("101 with a read-only body: Dial err=%v conn=%v", err, conn != nil), "body-not-rwc")
+		}
+	}
+	// 4. the HTTP client's Timeout bounds the handshake
+	{
+		rt := rtFunc(func(req *http.Request) (*http.Response, error) {
+			<-req.Context().Done()
+			return nil, req.Context().Err()
+		})
+		t0 := time.Now()
+		conn, _, err := websocket.Dial(context.Background(), "ws://example.com/", &websocket.DialOptions{HTTPClient: &http.Client{Transport: rt, Timeout: 80 * time.Millisecond}})
+		rep.eval("dial-client-timeout")
+		if err == nil || conn != nil || time.Since(t0) > 3*time.Second {
+			bad("dial-ignores-client-timeout", fmt.Sprintf("HTTPClient.Timeout=80ms, server never answers: Dial err=%v conn=%v after %v", err, conn != nil, time.Since(t0).Round(time.Millisecond)), "client-timeout")
+		}
+	}
+	// 5. a redirect to a ws:// location is followed with a well-formed upgrade request over http
+	for _, loc := range []string{"ws://other.example/next", "wss://other.example/next", "/next"} {
+		a, b := newPipe()
+		body := &dialBody{pipeEnd: a}
+		var reqs []*http.Request
+		rt := rtFunc(func(req *http.Request) (*http.Response, error) {
+			reqs = append(reqs, req)
+			if len(reqs) == 1 {
+				h := http.Header{}
+				h.Set("Location", loc)
+				return &http.Response{StatusCode: 302, Header: h, Body: http.NoBody, Request: req}, nil
+			}
+			return ok101(req, body), nil
+		})
+		ctx, cancel := context.WithTimeout(context.Background(), 3*time.Second)
+		conn, _, err := websocket.Dial(ctx, "ws://example.com/start", &websocket.DialOptions{HTTPClient: &http.Client{Transport: rt}})
+		cancel()
+		rep.eval("dial-redirect/" + loc)
+		if conn != nil {
+			atomic.StoreInt32(&body.established, 1)
+			conn.CloseNow()
+		}
+		b.Close()
+		a.Close()
+		wantScheme := "http"
+		if strings.HasPrefix(loc, "wss") {
+			wantScheme = "https"
+		}
+		if len(reqs) != 2 || reqs[1].URL.Scheme != wantScheme || !upgradeOK(reqs[1]) || err != nil {
+			sc := ""
+			if len(reqs) > 1 {
+				sc = reqs[1].URL.String()
+			}
+			bad("dial-redirect", fmt.Sprintf("302 -> %s: %d requests, second %q, Dial err=%v (a well-formed upgrade request over %s and a connection are expected)", loc, len(reqs), sc, err, wantScheme), loc)
+		}
+	}
+}
+
 func runC13(ctx *runCtx) {
 	rep := ctx.rep
 	rep.Rule = "responses from the cross product status x Connection/Upgrade value lists x accept-key variants (correct, for another key, missing, garbage) x subprotocol value (single names, other case, lists, trailing commas, look-alikes, several header lines) x requested lists x extension header variants x client compression modes, returned by a custom RoundTripper; the request seen by the RoundTripper is inspected " +
-		"(GET, headers, version 13, key = base64 of the next 16 entropy bytes, subprotocols, extension offer per mode, Host override, caller headers sent and the caller's header map left untouched, a later Dial reusing that map requests nothing it was not asked for, ws->http scheme); Dial must return a connection iff the response is valid. Lean model of verifyServerResponse compared. distinct = case tuple"
+		"(GET, headers, version 13, key = base64 of the next 16 entropy bytes, subprotocols, extension offer per mode, Host override, caller headers sent and the caller's header map left untouched, a later Dial reusing that map requests nothing it was not asked for, ws->http scheme); URL schemes ws/wss/http/https and unusable URLs, transport failure, a 101 whose body is not a connection, HTTPClient.Timeout, redirects to ws:// / wss:// / relative locations; Dial must return a connection iff the response is valid. Lean model of verifyServerResponse compared. distinct = case tuple"
+	c13DialPaths(rep)
 	rng := newRng(ctx.seed, "c13")
 	statuses := []int{101, 101, 101, 200, 400, 426, 301}
 	conns := [][]string{{"Upgrade"}, {"upgrade"}, {"keep-alive, Upgrade"}, {"keep-alive"}, nil, {"Upgradex"}}
@@ -278,8 +424,8 @@ func runC13(ctx *runCtx) {
 		} else {
 			for i := range lines {
 				got := ans[i]
-				if strings.HasPrefix(got, "ok") {
-					got = "ok"
+				if strings.HasPrefix(got, "ok") && !strings.HasPrefix(lines[i], "dial-req ") {
+					got = "ok" // verifyServerResponse: only accept vs reject is compared
 				}
 				if got != expect[i] {
 					rep.Disagree++
